@@ -807,6 +807,23 @@ class C11(SigBase):
         for _ in range(n):
             cases.append(self.gen(rng))
         self.n_gen = n
+        # fork() failing (EAGAIN) inside iv_wait_interest_register_spawn (scenario option Xforkfail=<k>, seed C11_9): the
+        # failed interest must leave nothing behind -- in particular the process-wide pid tree, which holds the other
+        # threads' interests, is untouched -- and everybody else's statuses still arrive
+        cases += ["Bet;M40;Xforkfail=2;L0:is0=0 is1=1 kr0 tr7+5000000;H0k0:cs0=e3;H0i0:iu0;H0t7:iu0",
+                  "Bet;M40;Xforkfail=1;L0:is0=0 is1=1.e2 kr0 tr7+5000000;H0i1:iu1;H0t7:iu1",
+                  "Bet;M40;Xforkfail=2;Z0101010101;L0:is0=0 cn2 kr0 tr7+5000000;L1:is0=1 ir1=2 tr7+5000000;H0k0:cs0=e3 cs2=e1;"
+                  "H0i0:iu0;H1i1:iu1;H0t7:iu0;H1t7:iu1"]
+        nff = 120 if ctx.tier == "quick" else 3000
+        k = 0
+        while k < nff:
+            c = self.gen(rng)
+            if "is" not in c.split(";", 2)[-1]:
+                continue
+            secs = c.split(";")
+            secs.insert(2, "Xforkfail=%d" % rng.choice([1, 1, 2, 2, 3]))
+            cases.append(";".join(secs))
+            k += 1
         return cases
 
     def nontrivial(self, case, log):
